@@ -254,6 +254,23 @@ func storedSpecials(m *big.Int) []*big.Int {
 		add(x)
 	}
 
+	// one limb above the modulus' own limb in that position while the value as a whole is below the modulus (in particular a
+	// low limb above m0): a limb-wise subtraction from the modulus borrows out of that limb, which a hand-written negation
+	// or comparison forgets
+	for i := 0; i < 3; i++ {
+		if ml[i] == ^uint64(0) {
+			continue
+		}
+
+		for _, hi := range []uint64{ml[i] + 1, ^uint64(0), ml[i] | 0xffffffff} {
+			for _, rest := range [][4]uint64{{}, {0x5555555555555555, 0x3333333333333333, 0x0f0f0f0f0f0f0f0f, 0x00ff00ff00ff00ff}, {^uint64(0), ^uint64(0), ^uint64(0), ml[3] - 1}} {
+				l := rest
+				l[i] = hi
+				add(oracle.FromLimbs(l))
+			}
+		}
+	}
+
 	return out
 }
 
